@@ -14,8 +14,8 @@ RULE = (
 TRUSTED = ["models: lean/SRVerif/Model/{Rec,LabelDP,Solvers}.lean; specification: lean/SRVerif/Spec/Opt.lean"]
 ASSUMPTIONS = ["coherent cost vectors"]
 OPEN = [
-    "'any' returns a member of the 'all' set: proved at entry level (C16_any), decided end-to-end by this check",
-    "unordered solvers: 'all' = canonical optimal set (Properties/C05Un.lean when present)",
+    "exh has no table: its ANY policy is the result entry alone (C16_any); the multifurcation loop of the extended "
+    "solvers under ANY is C08's result entry",
 ]
 
 CORPUS = [
